@@ -2,7 +2,9 @@
    arguments is a perfect matching of exactly the atoms that need a double bond.  The proof is a lineage invariant over the
    explicit stack and its fork snapshots: a configuration (path, pending list) keeps
      - only skeleton bonds, pairwise different (path and pending together),
-     - every pending bond leaving a visited atom and (unless it closes the ring to the start atom) entering an unvisited one,
+     - every pending bond leaving a visited atom and - unless it closes the ring to the start atom or is the stale closure
+       item of a pyrrole-type atom that went on with one neighbour - entering an unvisited one; every item that leaves an
+       atom with a stale item comes later in the list (is popped earlier),
      - all but the last pending item single and without cut mark,
      - every visited atom complete (all its bonds placed or pending) with exactly the number of double bonds of its class,
    and every snapshot below the top is a configuration for the path prefix its cut mark names. *)
@@ -216,6 +218,7 @@ Definition adj (a b : Z) : Prop := In a (al_get rings b).
 Arguments adj : simpl never.
 Hypothesis Hsym : forall a b, adj a b -> adj b a.
 Hypothesis Hirr : forall a, ~ adj a a.
+Hypothesis Hdisj : forall v, In v pyr -> v <> s -> ~ In v dbr.
 
 Definition closing_order : Z := if nonempty dbr then 1 else 2.
 Definition okO (a p o : Z) : Prop := adj a p /\ (o = 1 \/ (o = 2 /\ ~ In a dbr /\ (~ In p dbr \/ p = s))).
@@ -240,12 +243,24 @@ Definition start_ok (P : list kentry) (L : list kitem) : Prop :=
   | (a, p, o) :: r => p = s /\ o = b0 /\ a <> s /\ (forall e, In e r -> snd (fst e) <> s) /\ (forall x, In x L -> frm x <> s)
   end.
 
+(* an item that leads to an atom visited already: only a closure of a pyrrole-type atom that was left pending when the atom went
+   on with a single neighbour; it is single, has no cut mark, the atom is not next to the start atom *)
+Definition stale (P : list kentry) (x : kitem) : Prop :=
+  let '(n, f, o, c) := x in In n (vset P) /\ In n pyr /\ o = 1 /\ c = None /\ ~ adj s n.
+(* ... and every item that LEAVES such an atom comes later in the list (is popped earlier) *)
+Fixpoint ordP (P : list kentry) (L : list kitem) : Prop :=
+  match L with
+  | [] => True
+  | y :: r => (forall x, In x r -> In (tgt x) (vset P) -> tgt x <> s -> frm y <> tgt x) /\ ordP P r
+  end.
+
 Record Cfg (P : list kentry) (L : list kitem) : Prop := mkCfg {
   c_okP : Forall okE P;
   c_okL : Forall okI L;
   c_nd : NoDup (bonds_of P L);
   c_from : forall x, In x L -> In (frm x) (vset P) \/ frm x = s;
-  c_tgt : forall x, In x L -> tgt x <> s -> ~ In (tgt x) (vset P);
+  c_tgt : forall x, In x L -> tgt x <> s -> ~ In (tgt x) (vset P) \/ stale P x;
+  c_ord : ordP P L;
   c_cls : forall n f o c, In (n, f, o, c) L -> n = s -> o = closing_order;
   c_bl : bl_ok L;
   c_atoms : forall v, In v (vset P) -> v <> s -> complete v P L /\ need v (dcount v P L);
@@ -285,6 +300,76 @@ Lemma bonds_item_In P L k : In k (map ibond L) -> In k (bonds_of P L).
 Proof. intros. unfold bonds_of. apply in_or_app. auto. Qed.
 
 
+
+(* ---------- order-preserving sublists; the order clause ---------- *)
+Inductive sub {A : Type} : list A -> list A -> Prop :=
+| sub_nil : sub [] []
+| sub_skip x l l' : sub l l' -> sub l (x :: l')
+| sub_keep x l l' : sub l l' -> sub (x :: l) (x :: l').
+
+Lemma sub_refl {A : Type} (l : list A) : sub l l.
+Proof. induction l as [|a r IH]; [apply sub_nil | apply sub_keep; exact IH]. Qed.
+Lemma sub_In {A : Type} (l l' : list A) x : sub l l' -> In x l -> In x l'.
+Proof. induction 1; simpl; intros I; auto. destruct I as [I|I]; auto. Qed.
+Lemma sub_app_l {A : Type} (l l' r : list A) : sub l l' -> sub (l ++ r) (l' ++ r).
+Proof. induction 1; simpl; [apply sub_refl | apply sub_skip; auto | apply sub_keep; auto]. Qed.
+Lemma sub_cons_front {A : Type} (a : A) (l l' : list A) : sub l l' -> sub (a :: l) (a :: l').
+Proof. apply sub_keep. Qed.
+
+Lemma remove_kitem_sub x : forall l l', remove_kitem x l = Some l' -> sub l' l.
+Proof.
+  induction l as [|y r IH]; intros l' E; cbn [remove_kitem] in E; [discriminate|].
+  destruct (kitem_eqb x y); [injection E as E; subst; apply sub_skip; apply sub_refl|].
+  destruct (remove_kitem x r) as [r'|]; [|discriminate]. cbn [option_map] in E. injection E as E. subst. apply sub_keep. auto.
+Qed.
+
+Lemma sub_trans {A : Type} (l1 l2 l3 : list A) : sub l1 l2 -> sub l2 l3 -> sub l1 l3.
+Proof.
+  intros H12 H23. revert l1 H12. induction H23; intros l1 H12.
+  - exact H12.
+  - apply sub_skip. auto.
+  - inversion H12; subst; [apply sub_skip; auto | apply sub_keep; auto].
+Qed.
+
+Lemma do_closures_sub v : forall cl top path top' path', do_closures v cl top path = Ok (top', path') -> sub top' top.
+Proof.
+  induction cl as [|c r IH]; intros top path top' path' E; simpl in E.
+  - injection E as E1 E2. subst. apply sub_refl.
+  - destruct (remove_kitem (v, c, 1, None) top) as [t1|] eqn:R; [|discriminate].
+    eapply sub_trans; [eapply IH; exact E | eapply remove_kitem_sub; exact R].
+Qed.
+
+Lemma ordP_sub P l l' : sub l l' -> ordP P l' -> ordP P l.
+Proof.
+  induction 1; simpl; auto.
+  - intros [_ H']. auto.
+  - intros [H1 H2]. split; auto. intros z Hz. apply H1. eapply sub_In; eauto.
+Qed.
+
+Lemma ordP_app P A B : ordP P (A ++ B) <->
+  ordP P A /\ ordP P B /\ (forall y x, In y A -> In x B -> In (tgt x) (vset P) -> tgt x <> s -> frm y <> tgt x).
+Proof.
+  induction A as [|a r IH]; simpl.
+  - split; [intros H; repeat split; auto; intros y x [] | intros [_ [H _]]; exact H].
+  - rewrite IH. split.
+    + intros [H1 [H2 [H3 H4]]]. repeat split; auto.
+      * intros x Hx. apply H1. apply in_or_app. auto.
+      * intros y x [Hy|Hy] Hx; [subst; apply H1; apply in_or_app; auto | apply H4; auto].
+    + intros [[H1 H2] [H3 H4]]. repeat split; auto.
+      intros x Hx. apply in_app_or in Hx. destruct Hx as [Hx|Hx]; [apply H1; auto | apply H4; auto].
+Qed.
+
+(* the visited set grows by atoms no item of the list leaves *)
+Lemma ordP_grow P P' L : (forall u, In u (vset P') -> In u (vset P) \/ forall y, In y L -> frm y <> u) -> ordP P L -> ordP P' L.
+Proof.
+  intros H. induction L as [|y r IH]; simpl; auto. intros [H1 H2]. split.
+  - intros x Hx Hv Hs. destruct (H _ Hv) as [A|A]; [apply H1; auto | apply A; left; reflexivity].
+  - apply IH; auto. intros u Hu. destruct (H u Hu) as [A|A]; auto. right. intros z Hz. apply A. right. exact Hz.
+Qed.
+
+Lemma stale_grow P P' x : (forall u, In u (vset P) -> In u (vset P')) -> stale P x -> stale P' x.
+Proof. destruct x as [[[n f] o] c]. simpl. intros H [A B]. split; auto. Qed.
+
 Lemma NoDup_app_intro {A : Type} (l l' : list A) : NoDup l -> NoDup l' -> (forall x, In x l -> ~ In x l') -> NoDup (l ++ l').
 Proof.
   induction l as [|a r IH]; intros N N' D; simpl; auto. inversion N as [|? ? NI NR]; subst. constructor.
@@ -308,11 +393,14 @@ Definition cons_items (v : Z) (Cl : list Z) : list kitem := map (fun c => ((v, c
 Definition cl_entries (v : Z) (Cl : list Z) : list kentry := map (fun c => ((c, v, 1) : kentry)) Cl.
 
 (* the centre of the proof: what processing a newly reached atom v does to a configuration *)
-Lemma process_cfg P L v p o cx (lp : bool) Cl Fs Lrem pushes :
-  Cfg P (L ++ [(v, p, o, cx)]) -> v <> s ->
-  (forall w, adj w v <-> w = p \/ (lp = true /\ w = s) \/ In w Cl \/ In w Fs) ->
+Lemma process_cfg P L v p o cx (lp : bool) Cl Ck Fs Lrem pushes :
+  Cfg P (L ++ [(v, p, o, cx)]) -> v <> s -> ~ In v (vset P) ->
+  (forall w, adj w v <-> w = p \/ (lp = true /\ w = s) \/ In w Cl \/ In w Ck \/ In w Fs) ->
   (lp = true -> s <> p) ->
   (forall c, In c Cl -> In c (vset P) /\ c <> s /\ c <> p) -> NoDup Cl ->
+  (forall c, In c Ck -> In c (vset P) /\ c <> s /\ c <> p /\ In ((v, c, 1, None) : kitem) L /\ ~ In c Cl) ->
+  (Ck <> [] -> In v pyr /\ lp = false /\ ~ adj s v) ->
+  sub Lrem L ->
   (forall n, In n Fs -> ~ In n (vset P) /\ n <> s /\ n <> p) -> NoDup Fs ->
   Permutation L (cons_items v Cl ++ Lrem) ->
   Permutation (map tgt pushes) Fs -> (forall x, In x pushes -> frm x = v) ->
@@ -320,11 +408,10 @@ Lemma process_cfg P L v p o cx (lp : bool) Cl Fs Lrem pushes :
   need v ((if o =? 2 then 1 else 0) + (if lp && (closing_order =? 2) then 1 else 0) + countb (dI v) pushes) ->
   Cfg (P ++ (v, p, o) :: cl_entries v Cl) (cl_items v lp ++ Lrem ++ pushes).
 Proof.
-  intros C Vs Nb Lps HCl NCl HFs NFs PL PT PF OKp BLp ND.
+  intros C Vs F2 Nb Lps HCl NCl HCk HCkv SUB HFs NFs PL PT PF OKp BLp ND.
   set (x := ((v, p, o, cx) : kitem)) in *.
   assert (Ix : In x (L ++ [x])) by (apply in_or_app; right; left; reflexivity).
   assert (F1 : okO v p o) by (pose proof (c_okL _ _ C) as H; rewrite Forall_forall in H; apply (H x Ix)).
-  assert (F2 : ~ In v (vset P)) by (apply (c_tgt _ _ C x Ix); exact Vs).
   assert (F3 : In p (vset P) \/ p = s) by (apply (c_from _ _ C x Ix)).
   assert (F4 : Forall nl_ok L) by (apply (bl_ok_pop _ _ (c_bl _ _ C))).
   assert (NDo : NoDup (bonds_of P (L ++ [x]))) by (apply (c_nd _ _ C)).
@@ -343,13 +430,13 @@ Proof.
   assert (Iv : forall y, In y L -> frm y <> v).
   { intros y Hy E. destruct (c_from _ _ C y (InL y Hy)) as [H|H]; rewrite E in H; [contradiction | congruence]. }
   assert (Pn_adj : adj p v) by (apply Hsym; apply F1).
-  (* K2: nothing left in Lrem targets v *)
-  assert (K2 : forall y, In y Lrem -> tgt y <> v).
-  { intros [[[n f] oo] cc] Hy E. unfold tgt in E. simpl in E. subst n.
+  (* K2: what is left in Lrem and leads to v is a kept closure *)
+  assert (K2 : forall y, In y Lrem -> tgt y = v -> In (frm y) Ck).
+  { intros [[[n f] oo] cc] Hy E. unfold tgt in E. simpl in E. subst n. unfold frm. simpl.
     assert (HyL := InRem _ Hy).
     assert (OKy : okO v f oo) by (pose proof (c_okL _ _ C) as H; rewrite Forall_forall in H; apply (H _ (InL _ HyL))).
     assert (Af : adj f v) by (apply Hsym; apply OKy).
-    apply Nb in Af. destruct Af as [Af|[[_ Af]|[Af|Af]]].
+    apply Nb in Af. destruct Af as [Af|[[_ Af]|[Af|[Af|Af]]]]; [exfalso | exfalso | exfalso | exact Af | exfalso].
     - subst f. (* same bond as x *)
       unfold bonds_of in NDo. apply NoDup_app_remove_l in NDo. rewrite map_app in NDo. simpl in NDo.
       apply NoDup_remove_2 in NDo. rewrite app_nil_r in NDo. apply NDo. apply in_map_iff. exists (v, p, oo, cc). split; [reflexivity | exact HyL].
@@ -365,6 +452,11 @@ Proof.
       + apply in_map_iff. exists (v, f, 1, None). split; [reflexivity|]. unfold cons_items. apply in_map_iff. exists f. auto.
       + apply in_map_iff. exists (v, f, oo, cc). auto.
     - destruct (HFs _ Af) as [A1 [A2 _]]. destruct (c_from _ _ C _ (InL _ HyL)) as [H|H]; unfold frm in H; simpl in H; contradiction. }
+  assert (K3 : forall y, In y Lrem -> tgt y = v -> stale (P ++ (v, p, o) :: cl_entries v Cl) y).
+  { intros [[[n f] oo] cc] Hy E. pose proof (K2 _ Hy E) as K. unfold tgt in E. unfold frm in K. simpl in E, K. subst n.
+    assert (CK : Ck <> []) by (intros Z; rewrite Z in K; contradiction). destruct (HCkv CK) as [V1 [V2 V3]].
+    rewrite Forall_forall in F4. specialize (F4 _ (InRem _ Hy)). simpl in F4. destruct F4 as [N1 [N2|N2]]; [|contradiction].
+    simpl. repeat split; auto. rewrite vset_app. apply in_or_app. right. left. reflexivity. }
   (* membership in the new pending list *)
   assert (InNew : forall y, In y (cl_items v lp ++ Lrem ++ pushes) ->
             (lp = true /\ y = (s, v, closing_order, None)) \/ In y Lrem \/ In y pushes).
@@ -415,7 +507,7 @@ Proof.
       pose proof (PF _ Hy) as Ef. unfold frm in Ef. simpl in Ef. subst f.
       apply bond_key_eq in E. destruct E as [[E _]|[E1 E2]].
       * subst n. destruct (HFs _ (PushT _ Hy)) as [_ [A _]]. unfold tgt in A. simpl in A. congruence.
-      * subst n. apply (Hirr v). apply Nb. right. right. right. apply (PushT _ Hy).
+      * subst n. apply (Hirr v). apply Nb. right. right. right. right. apply (PushT _ Hy).
     + (* ... and different from every old bond *)
       intros k Hk Hn.
       assert (NewV : exists w, k = bond_key w v /\ (w = s \/ In w Fs) /\ (w = s -> lp = true)).
@@ -437,18 +529,39 @@ Proof.
            ++ subst w. apply (NoS _ Hy). reflexivity.
         -- injection Hy as E1 E2 E3 E4. subst n f oo cc.
            apply bond_key_eq in E. destruct E as [[E1 E2]|[E1 E2]].
-           { subst w. destruct Hw as [Hw|Hw]; [congruence | apply (Hirr v); apply (proj2 (Nb v)); right; right; right; exact Hw]. }
+           { subst w. destruct Hw as [Hw|Hw]; [congruence | apply (Hirr v); apply (proj2 (Nb v)); right; right; right; right; exact Hw]. }
            subst w.
            destruct Hw as [Hw|Hw]; [apply Lps; auto | exact (proj2 (proj2 (HFs _ Hw)) eq_refl)].
   - (* c_from *) intros y Hy. destruct (InNew _ Hy) as [[LP E]|[H|H]].
     + subst y. left. unfold frm. simpl. apply VsetN. right. reflexivity.
     + destruct (c_from _ _ C _ (InL _ (InRem _ H))) as [A|A]; [left; apply VsetN; left; exact A | right; exact A].
     + left. rewrite (PF _ H). apply VsetN. right. reflexivity.
-  - (* c_tgt *) intros y Hy Ts I. apply VsetN in I. destruct (InNew _ Hy) as [[LP E]|[H|H]].
-    + subst y. apply Ts. reflexivity.
-    + destruct I as [I|I]; [apply (c_tgt _ _ C _ (InL _ (InRem _ H)) Ts I) | apply (K2 _ H I)].
-    + pose proof (PushT _ H) as T. destruct I as [I|I]; [exact (proj1 (HFs _ T) I)|].
-      rewrite I in T. apply (Hirr v). apply Nb. right. right. right. exact T.
+  - (* c_tgt *) intros y Hy Ts. destruct (InNew _ Hy) as [[LP E]|[H|H]].
+    + subst y. exfalso. apply Ts. reflexivity.
+    + destruct (Z.eq_dec (tgt y) v) as [Ev'|Nv]; [right; apply K3; auto|].
+      destruct (c_tgt _ _ C _ (InL _ (InRem _ H)) Ts) as [A|A].
+      * left. intros I. apply VsetN in I. destruct I as [I|I]; contradiction.
+      * right. eapply stale_grow; [|exact A]. intros u Hu. apply VsetN. left. exact Hu.
+    + left. intros I. apply VsetN in I. pose proof (PushT _ H) as T. destruct I as [I|I]; [exact (proj1 (HFs _ T) I)|].
+      rewrite I in T. apply (Hirr v). apply Nb. right. right. right. right. exact T.
+  - (* c_ord *)
+    assert (PushNV : forall z, In z pushes -> ~ In (tgt z) (vset (P ++ (v, p, o) :: cl_entries v Cl))).
+    { intros z Hz I. apply VsetN in I. pose proof (PushT _ Hz) as T. destruct I as [I|I]; [exact (proj1 (HFs _ T) I)|].
+      rewrite I in T. apply (Hirr v). apply Nb. right. right. right. right. exact T. }
+    apply ordP_app. split; [|split].
+    + unfold cl_items. destruct lp; simpl; auto.
+    + apply ordP_app. split; [|split].
+      * apply ordP_grow with (P := P).
+        -- intros u Hu. apply VsetN in Hu. destruct Hu as [Hu|Hu]; [left; exact Hu | right]. subst u. intros y Hy. apply Iv. apply InRem. exact Hy.
+        -- eapply ordP_sub; [exact SUB|]. pose proof (c_ord _ _ C) as O. apply ordP_app in O. apply O.
+      * clear - PushNV. induction pushes as [|a r IH]; simpl; auto. split.
+        -- intros z Hz Hv _. exfalso. apply (PushNV z (or_intror Hz)). exact Hv.
+        -- apply IH. intros y Hy. apply PushNV. right. exact Hy.
+      * intros y z Hy Hz Hv _. exfalso. apply (PushNV z Hz). exact Hv.
+    + intros y z Hy Hz Hv Ts. unfold cl_items in Hy. destruct lp eqn:LPE; [|contradiction]. destruct Hy as [Hy|[]]. subst y. unfold frm. simpl.
+      apply in_app_or in Hz. destruct Hz as [Hz|Hz]; [|exfalso; apply (PushNV z Hz); exact Hv].
+      intros E. symmetry in E. pose proof (K2 _ Hz E) as K. assert (CK : Ck <> []) by (intros Z; rewrite Z in K; contradiction).
+      destruct (HCkv CK) as [_ [V2 _]]. discriminate V2.
   - (* c_cls *) intros n f oo cc Hy E. destruct (InNew _ Hy) as [[LP E']|[H|H]].
     + injection E' as E1 E2 E3 E4. subst. reflexivity.
     + apply (c_cls _ _ C n f oo cc (InL _ (InRem _ H)) E).
@@ -476,11 +589,17 @@ Proof.
           destruct (v =? u) eqn:E2; [apply Z.eqb_eq in E2; congruence|]. apply andb_false_r. }
         rewrite Z1, Z2, Z3, Z4. unfold x. simpl. lia.
     + subst u. split.
-      * intros w Hw. apply Nb in Hw. destruct Hw as [Hw|[[LP Hw]|[Hw|Hw]]].
+      * intros w Hw. apply Nb in Hw. destruct Hw as [Hw|[[LP Hw]|[Hw|[Hw|Hw]]]].
         -- subst w. apply bonds_entry_In. rewrite map_app. apply in_or_app. right. left. reflexivity.
         -- subst w. apply bonds_item_In. rewrite map_app. apply in_or_app. left. unfold cl_items. rewrite LP. left. simpl. apply bond_key_sym.
         -- apply bonds_entry_In. rewrite map_app. apply in_or_app. right. right. apply in_map_iff. exists (w, v, 1). split; [simpl; apply bond_key_sym|].
            unfold cl_entries. apply in_map_iff. exists w. auto.
+        -- destruct (HCk _ Hw) as [_ [_ [_ [Pr NC]]]].
+           assert (IR : In ((v, w, 1, None) : kitem) Lrem).
+           { pose proof (Permutation_in _ PL Pr) as I. apply in_app_or in I. destruct I as [I|I]; [|exact I].
+             unfold cons_items in I. apply in_map_iff in I. destruct I as [c [E Hc]]. injection E as E. subst c. contradiction. }
+           apply bonds_item_In. rewrite !map_app. apply in_or_app. right. apply in_or_app. left.
+           apply in_map_iff. exists (v, w, 1, None). split; [reflexivity | exact IR].
         -- apply bonds_item_In. rewrite !map_app. apply in_or_app. right. apply in_or_app. right.
            assert (T : In w (map tgt pushes)) by (eapply Permutation_in; [apply Permutation_sym; exact PT | exact Hw]).
            apply in_map_iff in T. destruct T as [[[[n f] oo] cc] [E He]]. unfold tgt in E. simpl in E. subst n.
@@ -495,8 +614,10 @@ Proof.
         assert (Z1 : countb (dE v) (cl_entries v Cl) = 0).
         { apply countb_0. intros e He. unfold cl_entries in He. apply in_map_iff in He. destruct He as [c [E _]]. subst e. reflexivity. }
         assert (Z3 : countb (dI v) Lrem = 0).
-        { apply countb_0. intros [[[n f] oo] cc] He. simpl. pose proof (K2 _ He) as A1. pose proof (Iv _ (InRem _ He)) as A2. unfold tgt in A1. unfold frm in A2. simpl in A1, A2.
-          destruct (n =? v) eqn:E1; [apply Z.eqb_eq in E1; congruence|]. destruct (f =? v) eqn:E2; [apply Z.eqb_eq in E2; congruence|]. apply andb_false_r. }
+        { apply countb_0. intros [[[n f] oo] cc] He. simpl. pose proof (Iv _ (InRem _ He)) as A2. unfold frm in A2. simpl in A2.
+          destruct (f =? v) eqn:E2; [apply Z.eqb_eq in E2; congruence|].
+          destruct (n =? v) eqn:E1; [|apply andb_false_r]. apply Z.eqb_eq in E1. subst n.
+          pose proof (K3 _ He eq_refl) as ST. simpl in ST. destruct ST as [_ [_ [O1 _]]]. subst oo. reflexivity. }
         assert (Z2 : countb (dI v) (cl_items v lp) = (if lp && (closing_order =? 2) then 1 else 0)).
         { unfold cl_items. destruct lp; simpl; [|reflexivity]. rewrite Z.eqb_refl, orb_true_r, andb_true_r. destruct (closing_order =? 2); reflexivity. }
         rewrite Z0, Z1, Z2, Z3. simpl. rewrite Z.eqb_refl. simpl. rewrite andb_true_r. destruct (o =? 2); lia.
@@ -527,12 +648,12 @@ Qed.
 Hypothesis Hnd : forall a, NoDup (al_get rings a).
 Hypothesis Hdeg3 : forall a, (List.length (al_get rings a) <= 3)%nat.
 Hypothesis Hdeg2 : forall a b, adj a b -> (2 <= List.length (al_get rings b))%nat.
-Hypothesis Hpyr2 : forall v, In v pyr -> (List.length (al_get rings v) <= 2)%nat.
 Hypothesis Hs0 : s <> 0.
 
 Record Mid (P : list kentry) (L : list kitem) (v p o : Z) (cx : option Z) (lpb : bool) (cl fs : list Z) : Prop := mkMid {
   m_cfg : Cfg P (L ++ [(v, p, o, cx)]);
   m_vs : v <> s;
+  m_new : ~ In v (vset P);
   m_nb : forall w, adj w v <-> w = p \/ (lpb = true /\ w = s) \/ In w cl \/ In w fs;
   m_lps : lpb = true -> s <> p;
   m_cl : forall c, In c cl -> In c (vset P) /\ c <> s /\ c <> p;
@@ -547,16 +668,15 @@ Lemma vset_snoc P v p o u : In u (vset (P ++ [(v, p, o)])) <-> In u (vset P) \/ 
 Proof. rewrite vset_app. simpl. rewrite in_app_iff. simpl. intuition. Qed.
 
 Lemma scan_mid P L v p o cx lpz cl fs :
-  Cfg P (L ++ [(v, p, o, cx)]) -> v <> s ->
+  Cfg P (L ++ [(v, p, o, cx)]) -> v <> s -> ~ In v (vset P) ->
   scan_nbrs rings s v p (P ++ [(v, p, o)]) = (lpz, cl, fs) ->
   Mid P L v p o cx (negb (lpz =? 0)) cl fs.
 Proof.
-  intros C Vs SN. rewrite scan_nbrs_spec in SN. injection SN as SE1 SE2 SE3.
+  intros C Vs F2 SN. rewrite scan_nbrs_spec in SN. injection SN as SE1 SE2 SE3.
   set (L0 := al_get rings v) in *. set (P' := P ++ [(v, p, o)]) in *.
   set (x := ((v, p, o, cx) : kitem)) in *.
   assert (Ix : In x (L ++ [x])) by (apply in_or_app; right; left; reflexivity).
   assert (F1 : okO v p o) by (pose proof (c_okL _ _ C) as H; rewrite Forall_forall in H; apply (H x Ix)).
-  assert (F2 : ~ In v (vset P)) by (apply (c_tgt _ _ C x Ix); exact Vs).
   assert (Pin : In p L0) by (apply Hsym; apply F1).
   assert (IP : forall w, in_path w P' = true <-> In w (vset P) \/ w = v).
   { intros w. rewrite in_path_In. apply vset_snoc. }
@@ -684,7 +804,16 @@ Proof.
   - pose proof (c_okL _ _ C) as H. apply Forall_app in H. apply H.
   - apply (Permutation_NoDup (Permutation_sym PB)). apply (c_nd _ _ C).
   - intros y Hy. destruct (c_from _ _ C _ (InL _ Hy)) as [A|A]; [left; apply VS; auto | right; exact A].
-  - intros y Hy Ts I. apply VS in I. destruct I as [I|I]; [apply (c_tgt _ _ C _ (InL _ Hy) Ts I) | contradiction].
+  - intros y Hy Ts. destruct (c_tgt _ _ C _ (InL _ Hy) Ts) as [A|A].
+    + left. intros I. apply VS in I. destruct I as [I|I]; contradiction.
+    + right. eapply stale_grow; [|exact A]. intros u Hu. apply VS. left. exact Hu.
+  - assert (NoS : forall y, In y L -> frm y <> s).
+    { intros y Hy. pose proof (c_start _ _ C) as ST. unfold start_ok in ST. destruct P as [|[[a0 p0] o0] r0].
+      - destruct ST as [n [c [E _]]]. destruct L as [|y0 L0]; [contradiction|]. destruct L0; simpl in E; discriminate E.
+      - destruct ST as [_ [_ [_ [_ H]]]]. apply H. apply InL. exact Hy. }
+    apply ordP_grow with (P := P).
+    + intros u Hu. apply VS in Hu. destruct Hu as [Hu|Hu]; [left; exact Hu | right; subst u; exact NoS].
+    + pose proof (c_ord _ _ C) as O. apply ordP_app in O. apply O.
   - intros n f oo cc Hy E. apply (c_cls _ _ C n f oo cc (InL _ Hy) E).
   - apply bl_ok_all. apply (bl_ok_pop _ _ (c_bl _ _ C)).
   - intros u Hu Us. apply VS in Hu. destruct Hu as [Hu|Hu]; [|contradiction].
@@ -706,16 +835,70 @@ Proof.
       * intros y Hy. apply S5. apply InL. exact Hy.
 Qed.
 
+(* a pending bond between two visited atoms is placed: the stale closure item of a pyrrole-type atom *)
+Lemma move_cfg P L L' v w (e : kentry) :
+  Cfg P L -> Permutation L (((v, w, 1, None) : kitem) :: L') -> sub L' L -> Forall nl_ok L' ->
+  In v (vset P) -> v <> s -> (e = (v, w, 1) \/ e = (w, v, 1)) -> Cfg (P ++ [e]) L'.
+Proof.
+  intros C PM SB NL Vv Vs He. set (y := ((v, w, 1, None) : kitem)) in *.
+  assert (Iy : In y L) by (eapply Permutation_in; [apply Permutation_sym; exact PM | left; reflexivity]).
+  assert (InL : forall z, In z L' -> In z L) by (intros z Hz; eapply sub_In; eauto).
+  assert (PN : P <> []) by (intros E0; subst P; contradiction).
+  assert (NoS : forall z, In z L -> frm z <> s).
+  { intros z Hz. pose proof (c_start _ _ C) as ST. unfold start_ok in ST. destruct P as [|[[a0 p0] o0] r0]; [contradiction|].
+    destruct ST as [_ [_ [_ [_ H]]]]. apply H. exact Hz. }
+  assert (Ww : In w (vset P)).
+  { destruct (c_from _ _ C y Iy) as [A|A]; [exact A | exfalso; apply (NoS y Iy); exact A]. }
+  assert (Ws : w <> s) by (apply (NoS y Iy)).
+  assert (OKy : okO v w 1) by (pose proof (c_okL _ _ C) as H; rewrite Forall_forall in H; apply (H y Iy)).
+  assert (EB : ebond e = ibond y) by (destruct He as [He|He]; subst e; simpl; [reflexivity | apply bond_key_sym]).
+  assert (PB : Permutation (bonds_of (P ++ [e]) L') (bonds_of P L)).
+  { unfold bonds_of. rewrite map_app. simpl. rewrite <- app_assoc. apply Permutation_app_head. simpl. rewrite EB.
+    apply Permutation_sym. apply (Permutation_map ibond) in PM. exact PM. }
+  assert (VS : forall u, In u (vset (P ++ [e])) <-> In u (vset P)).
+  { intros u. rewrite vset_app, in_app_iff. simpl. split; [|auto]. intros [H|[H|[]]]; [exact H|]. destruct He as [He|He]; subst e u; simpl; assumption. }
+  constructor.
+  - apply Forall_app. split; [apply (c_okP _ _ C)|]. constructor; [|constructor].
+    destruct He as [He|He]; subst e; [exact OKy|]. change (okO w v 1). split; [apply Hsym; apply OKy | left; reflexivity].
+  - pose proof (c_okL _ _ C) as H. rewrite Forall_forall in *. intros z Hz. apply H. apply InL. exact Hz.
+  - apply (Permutation_NoDup (Permutation_sym PB)). apply (c_nd _ _ C).
+  - intros z Hz. destruct (c_from _ _ C _ (InL _ Hz)) as [A|A]; [left; apply VS; exact A | right; exact A].
+  - intros z Hz Ts. destruct (c_tgt _ _ C _ (InL _ Hz) Ts) as [A|A].
+    + left. intros I. apply VS in I. contradiction.
+    + right. eapply stale_grow; [|exact A]. intros u Hu. apply VS. exact Hu.
+  - apply ordP_grow with (P := P); [intros u Hu; left; apply VS; exact Hu|]. eapply ordP_sub; [exact SB | apply (c_ord _ _ C)].
+  - intros n f oo cc Hz E. apply (c_cls _ _ C n f oo cc (InL _ Hz) E).
+  - apply bl_ok_all. exact NL.
+  - intros u Hu Us. apply VS in Hu. destruct (c_atoms _ _ C u Hu Us) as [Co Ne]. split.
+    + intros x Hx. eapply Permutation_in; [apply Permutation_sym; exact PB | apply Co; exact Hx].
+    + assert (E : dcount u (P ++ [e]) L' = dcount u P L); [|rewrite E; exact Ne].
+      unfold dcount. rewrite countb_app. rewrite (countb_perm (dI u) _ _ PM). cbn [countb].
+      assert (Z1 : (if dE u e then 1 else 0) = 0) by (destruct He as [He|He]; subst e; reflexivity).
+      assert (Z2 : (if dI u y then 1 else 0) = 0) by reflexivity.
+      rewrite Z1, Z2. lia.
+  - intros a q oo H. apply in_app_or in H. destruct H as [H|[H|[]]].
+    + destruct (c_prev _ _ C _ _ _ H) as [A|A]; [left; apply VS; exact A | right; exact A].
+    + left. apply VS. destruct He as [He|He]; subst e; injection H as E1 E2 E3; subst; assumption.
+  - intros a q oo H E. apply in_app_or in H. destruct H as [H|[H|[]]].
+    + apply (c_clsP _ _ C _ _ _ H E).
+    + exfalso. destruct He as [He|He]; subst e; injection H as E1 E2 E3; subst; contradiction.
+  - pose proof (c_start _ _ C) as ST. unfold start_ok in *. destruct P as [|[[a0 p0] o0] r0]; [contradiction|]. simpl.
+    destruct ST as [S1 [S2 [S3 [S4 S5]]]]. split; [exact S1|]. split; [exact S2|]. split; [exact S3|]. split.
+    + intros x Hx. apply in_app_or in Hx. destruct Hx as [Hx|[Hx|[]]]; [apply S4; exact Hx|]. subst x.
+      destruct He as [He|He]; subst e; simpl; assumption.
+    + intros z Hz. apply S5. apply InL. exact Hz.
+Qed.
+
 (* closures are consumed from a list that may carry the closing item in front *)
 Lemma do_closures_ctop v lpb cl L path top1 path1 : v <> s ->
   do_closures v cl (cl_items v lpb ++ L) path = Ok (top1, path1) ->
-  exists t, top1 = cl_items v lpb ++ t /\ Permutation L (cons_items v cl ++ t) /\ path1 = path ++ cl_entries v cl.
+  exists t, top1 = cl_items v lpb ++ t /\ Permutation L (cons_items v cl ++ t) /\ sub t L /\ path1 = path ++ cl_entries v cl.
 Proof.
   intros Vs E. unfold cl_items in *. destruct lpb; simpl in *.
   - rewrite do_closures_front in E by (simpl; congruence).
     destruct (do_closures v cl L path) as [[t pp]|] eqn:D; [|discriminate]. injection E as E1 E2. subst.
-    destruct (do_closures_perm _ _ _ _ _ _ D) as [A B]. exists t. auto.
-  - destruct (do_closures_perm _ _ _ _ _ _ E) as [A B]. exists top1. auto.
+    destruct (do_closures_perm _ _ _ _ _ _ D) as [A B]. exists t. repeat split; auto. eapply do_closures_sub. exact D.
+  - destruct (do_closures_perm _ _ _ _ _ _ E) as [A B]. exists top1. repeat split; auto. eapply do_closures_sub. exact E.
 Qed.
 
 Lemma do_closures_ctop_total v lpb cl L path : NoDup cl -> (forall c, In c cl -> In ((v, c, 1, None) : kitem) L) ->
@@ -725,14 +908,51 @@ Proof. intros N H. apply do_closures_total; auto. intros c Hc. apply in_or_app. 
 
 (* ---------------- the branches of `grow` ---------------- *)
 Lemma mid_cfg P L v p o cx lpb cl fs t pushes : Mid P L v p o cx lpb cl fs ->
-  Permutation L (cons_items v cl ++ t) ->
+  Permutation L (cons_items v cl ++ t) -> sub t L ->
   Permutation (map tgt pushes) fs -> (forall x, In x pushes -> frm x = v) -> Forall okI pushes -> bl_ok pushes ->
   need v ((if o =? 2 then 1 else 0) + (if lpb && (closing_order =? 2) then 1 else 0) + countb (dI v) pushes) ->
   Cfg (P ++ (v, p, o) :: cl_entries v cl) ((cl_items v lpb ++ t) ++ pushes).
 Proof.
-  intros M PL PT PF OK BL ND. rewrite <- app_assoc.
-  apply (process_cfg P L v p o cx lpb cl fs t pushes (m_cfg _ _ _ _ _ _ _ _ _ M) (m_vs _ _ _ _ _ _ _ _ _ M) (m_nb _ _ _ _ _ _ _ _ _ M)
-           (m_lps _ _ _ _ _ _ _ _ _ M) (m_cl _ _ _ _ _ _ _ _ _ M) (m_ncl _ _ _ _ _ _ _ _ _ M) (m_fs _ _ _ _ _ _ _ _ _ M) (m_nfs _ _ _ _ _ _ _ _ _ M)); auto.
+  intros M PL SB PT PF OK BL ND. rewrite <- app_assoc.
+  apply (process_cfg P L v p o cx lpb cl [] fs t pushes (m_cfg _ _ _ _ _ _ _ _ _ M) (m_vs _ _ _ _ _ _ _ _ _ M) (m_new _ _ _ _ _ _ _ _ _ M)); auto.
+  - intros w. rewrite (m_nb _ _ _ _ _ _ _ _ _ M w). simpl. tauto.
+  - apply (m_lps _ _ _ _ _ _ _ _ _ M).
+  - apply (m_cl _ _ _ _ _ _ _ _ _ M).
+  - apply (m_ncl _ _ _ _ _ _ _ _ _ M).
+  - intros c [].
+  - intros H. exfalso. apply H. reflexivity.
+  - apply (m_fs _ _ _ _ _ _ _ _ _ M).
+  - apply (m_nfs _ _ _ _ _ _ _ _ _ M).
+Qed.
+
+(* the closures of a pyrrole-type atom that goes on with a single neighbour stay pending *)
+Lemma mid_cfg_keep P L v p o cx cl fs pushes : Mid P L v p o cx false cl fs -> In v pyr ->
+  Permutation (map tgt pushes) fs -> (forall x, In x pushes -> frm x = v) -> Forall okI pushes -> bl_ok pushes ->
+  need v ((if o =? 2 then 1 else 0) + 0 + countb (dI v) pushes) ->
+  Cfg (P ++ [(v, p, o)]) ((cl_items v false ++ L) ++ pushes).
+Proof.
+  intros M PY PT PF OK BL ND. rewrite <- app_assoc.
+  change (P ++ [(v, p, o)]) with (P ++ (v, p, o) :: cl_entries v []).
+  pose proof (m_cfg _ _ _ _ _ _ _ _ _ M) as C.
+  apply (process_cfg P L v p o cx false [] cl fs L pushes C (m_vs _ _ _ _ _ _ _ _ _ M) (m_new _ _ _ _ _ _ _ _ _ M)); auto.
+  - intros w. rewrite (m_nb _ _ _ _ _ _ _ _ _ M w). simpl. tauto.
+  - apply (m_lps _ _ _ _ _ _ _ _ _ M).
+  - intros c [].
+  - constructor.
+  - intros c Hc. destruct (m_cl _ _ _ _ _ _ _ _ _ M c Hc) as [A [B D]]. repeat split; auto. apply (m_pres _ _ _ _ _ _ _ _ _ M c Hc).
+  - intros NE. split; [exact PY|]. split; [reflexivity|]. intros AS.
+    apply (m_nb _ _ _ _ _ _ _ _ _ M) in AS. destruct AS as [AS|[[AS _]|[AS|AS]]].
+    + (* the previous atom is the start atom: then nothing is visited yet and there is no closure *)
+      destruct cl as [|c0 cl0]; [apply NE; reflexivity|].
+      destruct (m_cl _ _ _ _ _ _ _ _ _ M c0 (or_introl eq_refl)) as [A _].
+      pose proof (c_start _ _ C) as ST. unfold start_ok in ST. destruct P as [|[[a0 p0] o0] r0]; [contradiction|].
+      destruct ST as [_ [_ [_ [_ H]]]]. apply (H (v, p, o, cx)); [apply in_or_app; right; left; reflexivity | symmetry; exact AS].
+    + discriminate AS.
+    + destruct (m_cl _ _ _ _ _ _ _ _ _ M s AS) as [_ [A _]]. apply A. reflexivity.
+    + destruct (m_fs _ _ _ _ _ _ _ _ _ M s AS) as [_ [A _]]. apply A. reflexivity.
+  - apply sub_refl.
+  - apply (m_fs _ _ _ _ _ _ _ _ _ M).
+  - apply (m_nfs _ _ _ _ _ _ _ _ _ M).
 Qed.
 
 Lemma push_ok P L v p o cx lpb cl fs n oo cc : Mid P L v p o cx lpb cl fs -> In n fs ->
@@ -791,9 +1011,9 @@ Proof.
   - (* double bond arrived, or double_bonded atom: everything else single *)
     destruct (do_closures v cl (cl_items v lpb ++ L) (P ++ [(v, p, o)])) as [[top1 path1]|] eqn:DC; [|simpl in G; discriminate G].
     injection G as G1 G2. subst st pth.
-    destruct (do_closures_ctop _ _ _ _ _ _ _ Vs DC) as [t [T1 [T2 T3]]]. subst top1 path1.
+    destruct (do_closures_ctop _ _ _ _ _ _ _ Vs DC) as [t [T1 [T2 [TS T3]]]]. subst top1 path1.
     cbn [Stk]. split; [|apply R'].
-    rewrite <- PE. apply (mid_cfg P L v p o cx lpb cl fs t _ M T2).
+    rewrite <- PE. apply (mid_cfg P L v p o cx lpb cl fs t _ M T2 TS).
     + rewrite map_map. simpl. rewrite map_id. reflexivity.
     + intros y Hy. apply in_map_iff in Hy. destruct Hy as [n [E _]]. subst y. reflexivity.
     + apply Forall_forall. intros y Hy. apply in_map_iff in Hy. destruct Hy as [n [E Hn]]. subst y. eapply push_ok; eauto.
@@ -831,50 +1051,53 @@ Proof.
         assert (PY : zmem v pyr = true).
         { destruct lpb; [destruct (MO2 eq_refl) as [_ [H|H]]; [exfalso; apply H; reflexivity | exact H]|].
           exfalso. simpl in LEN. assert (A : adj p v) by (apply Hsym; apply F1). pose proof (Hdeg2 _ _ A). lia. }
-        apply (mid_cfg P L v p 1 cx lpb [] [] L [] M NoCons); [reflexivity | t_pf | constructor | apply bl_ok_nil |].
+        apply (mid_cfg P L v p 1 cx lpb [] [] L [] M NoCons (sub_refl L)); [reflexivity | t_pf | constructor | apply bl_ok_nil |].
         rewrite (CL0 true). t_need.
       * destruct (zmem v pyr) eqn:PY.
         -- destruct (do_closures_ctop_total v lpb (c0 :: cl0) L (P ++ [(v, p, 1)]) (m_ncl _ _ _ _ _ _ _ _ _ M) (m_pres _ _ _ _ _ _ _ _ _ M)) as [[top1 path1] DC].
            rewrite (soft_of_do _ _ _ _ _ DC) in G. injection G as G1 G2. subst st pth.
-           destruct (do_closures_ctop _ _ _ _ _ _ _ Vs DC) as [t [T1 [T2 T3]]]. subst top1 path1.
+           destruct (do_closures_ctop _ _ _ _ _ _ _ Vs DC) as [t [T1 [T2 [TS T3]]]]. subst top1 path1.
            cbn [Stk]. split; [|apply R'].
            rewrite <- PE. rewrite <- (app_nil_r (cl_items v lpb ++ t)).
-           apply (mid_cfg P L v p 1 cx lpb (c0 :: cl0) [] t [] M T2); [reflexivity | t_pf | constructor | apply bl_ok_nil |].
+           apply (mid_cfg P L v p 1 cx lpb (c0 :: cl0) [] t [] M T2 TS); [reflexivity | t_pf | constructor | apply bl_ok_nil |].
            rewrite (CL0 true). t_need.
         -- eapply backtrack_stk; [exact R0 | exact G].
     + (* one unvisited neighbour *)
       assert (In1 : In n1 [n1]) by (left; reflexivity).
       destruct (zmem n1 dbr) eqn:D1.
       * destruct (zmem v pyr) eqn:PY; [|eapply backtrack_stk; [exact R0 | exact G]].
-        assert (P2 := Hpyr2 v (proj1 (zmem_true _ _) PY)). simpl in LEN.
-        assert (CE : cl = []) by (destruct cl; [reflexivity | simpl in LEN; destruct lpb; lia]). subst cl.
+        assert (PYI : In v pyr) by (apply zmem_true; exact PY). simpl in LEN.
         injection G as G1 G2. subst st pth. cbn [Stk]. split; [|exact R0].
-        rewrite <- PE0. apply (mid_cfg P L v p 1 cx lpb [] [n1] L _ M NoCons); [reflexivity | t_pf | t_ok M | apply bl_ok_one |].
-        rewrite (CL0 true). t_need.
+        destruct cl as [|c0 cl0].
+        -- rewrite <- PE0. apply (mid_cfg P L v p 1 cx lpb [] [n1] L _ M NoCons (sub_refl L)); [reflexivity | t_pf | t_ok M | apply bl_ok_one |].
+           rewrite (CL0 true). t_need.
+        -- assert (LF : lpb = false) by (destruct lpb; [simpl in LEN; lia | reflexivity]). subst lpb.
+           apply (mid_cfg_keep P L v p 1 cx (c0 :: cl0) [n1] _ M PYI); [reflexivity | t_pf | t_ok M | apply bl_ok_one |]. t_need.
       * destruct (zmem v pyr) eqn:PY.
-        -- assert (P2 := Hpyr2 v (proj1 (zmem_true _ _) PY)). simpl in LEN.
-           assert (CE : cl = []) by (destruct cl; [reflexivity | simpl in LEN; destruct lpb; lia]). subst cl.
+        -- assert (PYI : In v pyr) by (apply zmem_true; exact PY). simpl in LEN.
            injection G as G1 G2. subst st pth. cbn [Stk].
-           assert (C1 : Cfg (P ++ [(v, p, 1)]) ((cl_items v lpb ++ L) ++ [((n1, v, 2, None) : kitem)])).
-           { rewrite <- PE0. apply (mid_cfg P L v p 1 cx lpb [] [n1] L _ M NoCons); [reflexivity | t_pf | t_ok M | apply bl_ok_one |].
-             rewrite (CL0 true). t_need. }
-           assert (C2 : Cfg (P ++ [(v, p, 1)]) ((cl_items v lpb ++ L) ++ [((n1, v, 1, Some (Z.of_nat (List.length (P ++ [(v, p, 1)])))) : kitem)])).
-           { rewrite <- PE0. apply (mid_cfg P L v p 1 cx lpb [] [n1] L _ M NoCons); [reflexivity | t_pf | t_ok M | apply bl_ok_one |].
-             rewrite (CL0 true). t_need. }
+           assert (C12 : Cfg (P ++ [(v, p, 1)]) ((cl_items v lpb ++ L) ++ [((n1, v, 2, None) : kitem)]) /\
+                         Cfg (P ++ [(v, p, 1)]) ((cl_items v lpb ++ L) ++ [((n1, v, 1, Some (Z.of_nat (List.length (P ++ [(v, p, 1)])))) : kitem)])).
+           { destruct cl as [|c0 cl0].
+             - split; rewrite <- PE0; apply (mid_cfg P L v p 1 cx lpb [] [n1] L _ M NoCons (sub_refl L));
+                 first [reflexivity | t_pf | t_ok M | apply bl_ok_one | (rewrite (CL0 true); t_need)].
+             - assert (LF : lpb = false) by (destruct lpb; [simpl in LEN; lia | reflexivity]). subst lpb.
+               split; apply (mid_cfg_keep P L v p 1 cx (c0 :: cl0) [n1] _ M PYI); first [reflexivity | t_pf | t_ok M | apply bl_ok_one | t_need]. }
+           destruct C12 as [C1 C2].
            split; [exact C1|]. apply rest_ok_self; [exact C2 | | exact R0].
            eexists. split; [apply last_cut_snoc | reflexivity].
         -- (* plain ring atom: the double bond goes on, a closure stays single *)
            simpl in LEN.
            destruct cl as [|c0 cl0].
            ++ injection G as G1 G2. subst st pth. cbn [Stk]. split; [|exact R0].
-              rewrite <- PE0. apply (mid_cfg P L v p 1 cx lpb [] [n1] L _ M NoCons); [reflexivity | t_pf | t_ok M | apply bl_ok_one |].
+              rewrite <- PE0. apply (mid_cfg P L v p 1 cx lpb [] [n1] L _ M NoCons (sub_refl L)); [reflexivity | t_pf | t_ok M | apply bl_ok_one |].
               rewrite (CL0 true). t_need.
            ++ assert (CE : cl0 = []) by (destruct cl0; [reflexivity | simpl in LEN; destruct lpb; lia]). subst cl0.
               destruct (remove_kitem (v, c0, 1, None) ((cl_items v lpb ++ L) ++ [((n1, v, 2, None) : kitem)])) as [top2|] eqn:RM; [|simpl in G; discriminate G].
               injection G as G1 G2. subst st pth.
               (* the removed item sits in the old part of the list *)
               destruct (do_closures_ctop_total v lpb [c0] L (P ++ [(v, p, 1)]) (m_ncl _ _ _ _ _ _ _ _ _ M) (m_pres _ _ _ _ _ _ _ _ _ M)) as [[top1 path1] DC].
-              destruct (do_closures_ctop _ _ _ _ _ _ _ Vs DC) as [t [T1 [T2 T3]]]. subst top1 path1.
+              destruct (do_closures_ctop _ _ _ _ _ _ _ Vs DC) as [t [T1 [T2 [TS T3]]]]. subst top1 path1.
               simpl in DC. destruct (remove_kitem (v, c0, 1, None) (cl_items v lpb ++ L)) as [t1|] eqn:RM1; [|discriminate DC].
               injection DC as DC1. subst t1.
               assert (RM2 : remove_kitem (v, c0, 1, None) ((cl_items v lpb ++ L) ++ [((n1, v, 2, None) : kitem)]) = Some ((cl_items v lpb ++ t) ++ [((n1, v, 2, None) : kitem)])).
@@ -887,7 +1110,7 @@ Proof.
               rewrite RM2 in RM. injection RM as RM. subst top2.
               cbn [Stk]. split; [|apply (R' [(c0, v, 1)])].
               change ((P ++ [(v, p, 1)]) ++ [(c0, v, 1)]) with ((P ++ [(v, p, 1)]) ++ cl_entries v [c0]). rewrite <- PE.
-              apply (mid_cfg P L v p 1 cx lpb [c0] [n1] t _ M T2); [reflexivity | t_pf | t_ok M | apply bl_ok_one |].
+              apply (mid_cfg P L v p 1 cx lpb [c0] [n1] t _ M T2 TS); [reflexivity | t_pf | t_ok M | apply bl_ok_one |].
               rewrite (CL0 true). t_need.
     + (* fork: two unvisited neighbours, hence no closure and no closing bond *)
       simpl in LEN.
@@ -895,7 +1118,7 @@ Proof.
       assert (CE : cl = []) by (destruct cl; [reflexivity | simpl in LEN; destruct lpb; lia]). subst lpb cl.
       assert (FK : forall pushes, Permutation (map tgt pushes) [n1; n2] -> (forall y, In y pushes -> frm y = v) -> Forall okI pushes -> bl_ok pushes ->
                    need v (0 + 0 + countb (dI v) pushes) -> Cfg (P ++ [(v, p, 1)]) ((cl_items v false ++ L) ++ pushes)).
-      { intros pushes A1 A2 A3 A4 A5. rewrite <- PE0. apply (mid_cfg P L v p 1 cx false [] [n1; n2] L pushes M NoCons); auto. }
+      { intros pushes A1 A2 A3 A4 A5. rewrite <- PE0. apply (mid_cfg P L v p 1 cx false [] [n1; n2] L pushes M NoCons (sub_refl L)); auto. }
       assert (NL1 : forall n, nl_ok ((n, v, 1, None) : kitem)) by (intros n; simpl; auto).
       assert (SW : Permutation [n2; n1] [n1; n2]) by apply perm_swap.
       assert (RS : forall base a n oo, Cfg (P ++ [(v, p, 1)]) (base ++ [a; (n, v, oo, Some (Z.of_nat (List.length (P ++ [(v, p, 1)]))))]) -> forall r, rest_ok (P ++ [(v, p, 1)]) r ->
@@ -913,6 +1136,87 @@ Proof.
     + simpl in G. discriminate G.
 Qed.
 
+
+(* ---------------- a pyrrole-type atom reached a second time through its stale closure item ---------------- *)
+Lemma sub_Forall {A : Type} (Q : A -> Prop) (l l' : list A) : sub l l' -> Forall Q l' -> Forall Q l.
+Proof. intros S F. rewrite Forall_forall in *. intros x Hx. apply F. eapply sub_In; eauto. Qed.
+
+Lemma sub_snoc {A : Type} (l : list A) x : sub l (l ++ [x]).
+Proof. induction l as [|a r IH]; simpl; [apply sub_skip; apply sub_nil | apply sub_keep; exact IH]. Qed.
+
+Lemma stale_pop P L v c o cx : Cfg P (L ++ [(v, c, o, cx)]) -> v <> s -> In v (vset P) ->
+  o = 1 /\ cx = None /\ In v pyr /\ ~ adj s v /\ Cfg (P ++ [(v, c, 1)]) L /\ Forall nl_ok L /\ (forall y, In y L -> frm y <> v).
+Proof.
+  intros C Vs Vv. set (x := ((v, c, o, cx) : kitem)) in *.
+  assert (Ix : In x (L ++ [x])) by (apply in_or_app; right; left; reflexivity).
+  destruct (c_tgt _ _ C x Ix Vs) as [A|A]; [contradiction|]. simpl in A. destruct A as [_ [PY [O1 [CX NS]]]]. subst o cx.
+  pose proof (bl_ok_pop _ _ (c_bl _ _ C)) as NL.
+  split; [reflexivity|]. split; [reflexivity|]. split; [exact PY|]. split; [exact NS|]. split; [|split; [exact NL|]].
+  - apply (move_cfg P (L ++ [x]) L v c (v, c, 1) C); auto.
+    + apply Permutation_sym. apply Permutation_cons_append.
+    + apply sub_snoc.
+  - intros y Hy. pose proof (c_ord _ _ C) as O. apply ordP_app in O. destruct O as [_ [_ O]].
+    apply (O y x Hy (or_introl eq_refl)); [exact Vv | exact Vs].
+Qed.
+
+Lemma soft_cfg v : forall cl L P L' P', Cfg P L -> Forall nl_ok L -> In v (vset P) -> v <> s ->
+  soft_closures v cl L P = (L', P') -> Cfg P' L' /\ exists Q, P' = P ++ Q.
+Proof.
+  induction cl as [|c r IH]; intros L P L' P' C NL Vv Vs E; simpl in E.
+  - injection E as E1 E2. subst. split; [exact C | exists []; rewrite app_nil_r; reflexivity].
+  - destruct (remove_kitem (v, c, 1, None) L) as [t1|] eqn:R; [|eapply IH; eauto].
+    pose proof (remove_kitem_perm _ _ _ R) as PM. pose proof (remove_kitem_sub _ _ _ R) as SB.
+    assert (NL1 : Forall nl_ok t1) by (eapply sub_Forall; eauto).
+    assert (C1 : Cfg (P ++ [(c, v, 1)]) t1) by (apply (move_cfg P L t1 v c (c, v, 1) C PM SB NL1 Vv Vs); right; reflexivity).
+    assert (Vv1 : In v (vset (P ++ [(c, v, 1)]))) by (rewrite vset_app; apply in_or_app; left; exact Vv).
+    destruct (IH _ _ _ _ C1 NL1 Vv1 Vs E) as [C2 [Q EQ]]. split; [exact C2|]. exists ((c, v, 1) :: Q). rewrite EQ, <- app_assoc. reflexivity.
+Qed.
+
+Lemma revisit_stk P L v c o cx rest lpz cl fs st' ys bf bs nv :
+  Cfg P (L ++ [(v, c, o, cx)]) -> v <> s -> In v (vset P) -> rest_ok P rest ->
+  scan_nbrs rings s v c (P ++ [(v, c, o)]) = (lpz, cl, fs) ->
+  lpz = 0 /\
+  (match grow dbr pyr L rest (P ++ [(v, c, o)]) v o cl fs with
+   | Err e => Err e
+   | Ok (stk, p) => Ok (mkK stk p bf bs nv, ([] : list (list kentry)))
+   end = Ok (st', ys) ->
+   Stk (k_path st') (k_stack st') /\ k_buffer st' = bf /\ ys = []).
+Proof.
+  intros C Vs Vv R SN.
+  destruct (stale_pop _ _ _ _ _ _ C Vs Vv) as [O1 [CX [PY [NS [C1 [NL NF]]]]]]. subst o cx.
+  rewrite scan_nbrs_spec in SN. injection SN as S1 S2 S3.
+  set (P1 := P ++ [(v, c, 1)]) in *.
+  assert (LZ : lpz = 0).
+  { rewrite <- S1. destruct (existsb (f_loop s c) (al_get rings v)) eqn:EX; [|reflexivity]. exfalso.
+    apply existsb_exists in EX. destruct EX as [w [Hw F]]. unfold f_loop in F. apply andb_true_iff in F. destruct F as [_ F]. apply Z.eqb_eq in F. subst w. apply NS. exact Hw. }
+  assert (FS : fs = []).
+  { rewrite <- S3. destruct (filter (f_for s c P1) (al_get rings v)) as [|w r] eqn:FL; [reflexivity|]. exfalso.
+    assert (Iw : In w (filter (f_for s c P1) (al_get rings v))) by (rewrite FL; left; reflexivity).
+    apply filter_In in Iw. destruct Iw as [Aw F]. unfold f_for in F. rewrite !andb_true_iff, !negb_true_iff in F. destruct F as [[Wc Ws] NP].
+    apply Z.eqb_neq in Wc. apply Z.eqb_neq in Ws.
+    assert (Vw : In w (vset P1)).
+    { assert (Vv1 : In v (vset P1)) by (unfold P1; rewrite vset_app; apply in_or_app; left; exact Vv).
+      destruct (c_atoms _ _ C1 v Vv1 Vs) as [Co _]. specialize (Co w Aw). unfold bonds_of in Co. apply in_app_or in Co. destruct Co as [Co|Co].
+      - apply in_map_iff in Co. destruct Co as [[[a q] oo] [E' He]]. simpl in E'. apply bond_key_eq in E'. destruct E' as [[E1 E2]|[E1 E2]].
+        + subst a q. destruct (c_prev _ _ C1 _ _ _ He) as [H|H]; [exact H | contradiction].
+        + subst a q. eapply In_vset. exact He.
+      - apply in_map_iff in Co. destruct Co as [[[[n f] oo] cc] [E' He]]. simpl in E'. apply bond_key_eq in E'. destruct E' as [[E1 E2]|[E1 E2]].
+        + subst n f. destruct (c_from _ _ C1 _ He) as [H|H]; unfold frm in H; simpl in H; [exact H | contradiction].
+        + subst n f. exfalso. apply (NF _ He). reflexivity. }
+    apply in_path_In in Vw. unfold vset in Vw. congruence. }
+  split; [exact LZ|]. intros E. clear S1 S3. subst lpz fs.
+  unfold grow in E. unfold indb, inpyr in E. change (1 =? 2) with false in E. cbn [orb] in E.
+  assert (ND : zmem v dbr = false) by (apply zmem_false; apply Hdisj; auto).
+  rewrite ND in E.
+  assert (R1 : forall Q, rest_ok (P1 ++ Q) rest) by (intros Q; unfold P1; rewrite <- app_assoc; apply rest_ok_app; exact R).
+  destruct cl as [|c0 cl0].
+  - injection E as E1 E2. subst st' ys. cbn [k_path k_stack k_buffer Stk]. split; [split; [exact C1|]|split; reflexivity]. rewrite <- (app_nil_r P1). apply R1.
+  - rewrite (proj2 (zmem_true _ _) PY) in E.
+    destruct (soft_closures v (c0 :: cl0) L P1) as [top1 path1] eqn:SC.
+    injection E as E1 E2. subst st' ys. cbn [k_path k_stack k_buffer Stk].
+    assert (Vv1 : In v (vset P1)) by (unfold P1; rewrite vset_app; apply in_or_app; left; exact Vv).
+    destruct (soft_cfg v _ _ _ _ _ C1 NL Vv1 Vs SC) as [C2 [Q EQ]]. split; [split; [exact C2|]|split; reflexivity]. rewrite EQ. apply R1.
+Qed.
 
 (* ---------------- one iteration of the loop ---------------- *)
 Variable size : Z.
@@ -933,13 +1237,12 @@ Qed.
 
 (* when the path is complete the popped item led to the start atom *)
 Lemma complete_pop_is_start P L v p o cx :
-  Cfg P (L ++ [(v, p, o, cx)]) -> Z.of_nat (List.length (P ++ [(v, p, o)])) = size -> v = s.
+  Cfg P (L ++ [(v, p, o, cx)]) -> ~ In v (vset P) -> Z.of_nat (List.length (P ++ [(v, p, o)])) = size -> v = s.
 Proof.
-  intros C LN. destruct (Z.eq_dec v s) as [E|Vs]; [exact E|]. exfalso.
+  intros C F2 LN. destruct (Z.eq_dec v s) as [E|Vs]; [exact E|]. exfalso.
   set (x := ((v, p, o, cx) : kitem)) in *.
   assert (Ix : In x (L ++ [x])) by (apply in_or_app; right; left; reflexivity).
   assert (F1 : okO v p o) by (pose proof (c_okL _ _ C) as H; rewrite Forall_forall in H; apply (H x Ix)).
-  assert (F2 : ~ In v (vset P)) by (apply (c_tgt _ _ C x Ix); exact Vs).
   pose proof (c_nd _ _ C) as ND. pose proof (bonds_in_E _ _ C) as IN.
   pose proof (NoDup_incl_length ND IN) as LE.
   assert (LB : List.length (bonds_of P (L ++ [x])) = (List.length P + List.length L + 1)%nat).
@@ -979,8 +1282,12 @@ Proof.
     assert (Rp : rest_ok path rest) by (apply rest_ok_app; exact R).
     destruct (Z.of_nat (List.length path) =? size) eqn:SZ.
     + apply Z.eqb_eq in SZ.
-      assert (AS : atom = s) by (eapply complete_pop_is_start; [exact C | exact SZ]). subst atom.
-      assert (GP : Good path) by (split; [exists top; apply closing_pop with (cx := cx); exact C | exact SZ]).
+      assert (GP : Good path).
+      { destruct (Z.eq_dec atom s) as [AS|AS].
+        - subst atom. split; [exists top; apply closing_pop with (cx := cx); exact C | exact SZ].
+        - destruct (in_dec Z.eq_dec atom (vset (k_path st))) as [IV|NV].
+          + destruct (stale_pop _ _ _ _ _ _ C AS IV) as [O1 [_ [_ [_ [C1 _]]]]]. subst bond. split; [exists top; exact C1 | exact SZ].
+          + exfalso. apply AS. eapply complete_pop_is_start; [exact C | exact NV | exact SZ]. }
       assert (BA : Forall Good (k_buffer st ++ [path])) by (apply Forall_app; split; auto).
       destruct (nonempty pyr && negb (k_bsize st =? 0));
         [destruct (2 <=? countb (fun n => gsum n path =? 2) pyr); [destruct (Z.of_nat (List.length (k_buffer st)) =? k_bsize st)|]|];
@@ -990,7 +1297,12 @@ Proof.
     + destruct (negb (atom =? s)) eqn:AS.
       * apply negb_true_iff in AS. apply Z.eqb_neq in AS.
         destruct (scan_nbrs rings s atom prev path) as [[lpz cl] fs] eqn:SN. cbv beta iota zeta in E.
-        pose proof (scan_mid _ _ _ _ _ _ _ _ _ C AS SN) as M.
+        destruct (in_dec Z.eq_dec atom (vset (k_path st))) as [IV|NV].
+        { (* second visit of a pyrrole-type atom through its stale closure item *)
+          destruct (revisit_stk _ _ _ _ _ _ rest _ _ _ st' ys (k_buffer st) (k_bsize st) (k_never st) C AS IV R SN) as [LZ RV].
+          subst lpz. change (negb (0 =? 0)) with false in E. cbv iota in E.
+          destruct (RV E) as [SK' [BF' YS']]. rewrite BF', YS'. split; [split; [exact SK' | exact BF] | constructor]. }
+        pose proof (scan_mid _ _ _ _ _ _ _ _ _ C AS NV SN) as M.
         assert (LPZ : negb (lpz =? 0) = true -> lpz = s).
         { rewrite scan_nbrs_spec in SN. injection SN as S1 _ _. rewrite <- S1. destruct (existsb _ _); [reflexivity | rewrite Z.eqb_refl; discriminate]. }
         assert (O12 : bond = 1 \/ bond = 2).
@@ -1172,8 +1484,7 @@ Fixpoint nodup_p (l : list (Z * Z)) : bool :=
 Definition ksize (rings : adjl) : Z := Z.of_nat (fold_right (fun nl s => (List.length (snd nl) + s)%nat) O rings) / 2.
 Definition rings_wf2 (rings : adjl) (db pyr : list Z) : bool :=
   rings_wf rings db pyr && nodup_p (skeleton_bonds rings) && (Z.of_nat (List.length (skeleton_bonds rings)) =? ksize rings) &&
-  forallb (fun nl => 0 <? fst nl) rings &&
-  forallb (fun v => Z.of_nat (List.length (al_get rings v)) <=? 2) pyr.     (* every pyrrole-type atom has two skeleton neighbours *)
+  forallb (fun nl => 0 <? fst nl) rings.
 
 Lemma nodup_p_NoDup l : nodup_p l = true -> NoDup l.
 Proof.
@@ -1212,13 +1523,12 @@ Variables (rings : adjl) (db pyr : list Z).
 Hypothesis WF : rings_wf2 rings db pyr = true.
 
 Lemma wf_parts : rings_wf rings db pyr = true /\ NoDup (skeleton_bonds rings) /\ Z.of_nat (List.length (skeleton_bonds rings)) = ksize rings /\
-  (forall n l, In (n, l) rings -> 0 < n) /\ (forall v, In v pyr -> (List.length (al_get rings v) <= 2)%nat).
+  (forall n l, In (n, l) rings -> 0 < n).
 Proof.
-  unfold rings_wf2 in WF. rewrite !andb_true_iff in WF. destruct WF as [[[[A B] C] D] E]. repeat split; auto.
+  unfold rings_wf2 in WF. rewrite !andb_true_iff in WF. destruct WF as [[[A B] C] D]. repeat split; auto.
   - apply nodup_p_NoDup. exact B.
   - apply Z.eqb_eq. exact C.
   - intros n l H. rewrite forallb_forall in D. specialize (D _ H). simpl in D. apply Z.ltb_lt. exact D.
-  - intros v H. rewrite forallb_forall in E. specialize (E _ H). apply Z.leb_le in E. lia.
 Qed.
 
 Lemma wf_entry n l : In (n, l) rings -> NoDup l /\ ~ In n l /\ (List.length l = 2 \/ List.length l = 3)%nat /\ (forall m, In m l -> In n (al_get rings m)).
@@ -1259,8 +1569,13 @@ Proof.
   destruct A as [[[[[[[A _] _] _] _] _] _] _]. apply nodup_z_NoDup. exact A.
 Qed.
 Lemma f_key_pos n : In n (keys rings) -> n <> 0.
-Proof. intros H. destruct wf_parts as [_ [_ [_ [P _]]]]. specialize (P _ _ (al_get_key _ _ H)). lia. Qed.
+Proof. intros H. destruct wf_parts as [_ [_ [_ P]]]. specialize (P _ _ (al_get_key _ _ H)). lia. Qed.
 
+Lemma f_disj v : In v pyr -> ~ In v db.
+Proof.
+  destruct wf_parts as [A _]. unfold rings_wf in A. rewrite !andb_true_iff in A. destruct A as [_ A]. rewrite forallb_forall in A.
+  intros H I. specialize (A _ H). apply negb_true_iff in A. apply zmem_false in A. contradiction.
+Qed.
 Lemma f_skel a b : adj rings a b -> In (bond_key a b) (skeleton_bonds rings).
 Proof.
   intros H. pose proof (f_sym _ _ H) as H'. assert (N : a <> b) by (intros E; subst; apply (f_irr b); exact H).
@@ -1289,7 +1604,8 @@ Proof.
     rewrite H2. intros [I|[]]. congruence.
   - unfold bonds_of. simpl. constructor; [intros []| constructor].
   - intros x [H|[]]. subst x. right. reflexivity.
-  - intros x [H|[]] T. subst x. intros [].
+  - intros x [H|[]] T. subst x. left. intros [].
+  - simpl. split; [intros x [] | exact I].
   - intros n f o c [H|[]] E. injection H as E1 E2 E3 E4. congruence.
   - intros L1 x E. destruct L1 as [|a [|b r]]; simpl in E; try discriminate. constructor.
   - intros v [].
@@ -1316,13 +1632,13 @@ Qed.
 End Init.
 
 (* ---------------- the theorem ---------------- *)
-Theorem kekule_component_sound_partial : forall rings db db_start pyr bs maxy fuel ys r c,
+Theorem kekule_component_sound : forall rings db db_start pyr bs maxy fuel ys r c,
   rings_wf2 rings db pyr = true -> (db <> [] -> In db_start db) ->
   kekule_component rings db db_start pyr bs maxy fuel = Ok (ys, r, c) ->
   forallb (form_sound rings db pyr) ys = true.
 Proof.
   intros rings db db_start pyr bs maxy fuel ys r c WF DS E.
-  destruct (wf_parts _ _ _ WF) as [WF1 [ND [LEN [POS PY2]]]].
+  destruct (wf_parts _ _ _ WF) as [WF1 [ND [LEN POS]]]. pose proof (f_disj _ _ _ WF) as DISJ.
   pose proof (f_sym _ _ _ WF) as Hsym. pose proof (f_irr _ _ _ WF) as Hirr. pose proof (f_nd _ _ _ WF) as Hnd.
   pose proof (f_deg3 _ _ _ WF) as Hd3. pose proof (f_deg2 _ _ _ WF) as Hd2. pose proof (f_keys _ _ _ WF) as Hkeys.
   pose proof (f_skel _ _ _ WF) as Hskel.
@@ -1331,6 +1647,7 @@ Proof.
     intros n Hn. apply zmem_true. apply A. exact Hn. }
   unfold kekule_component in E. fold (ksize rings) in E.
   assert (RUN : forall dbr s b0 all_nbrs, In s (keys rings) -> (b0 = 1 \/ (b0 = 2 /\ dbr = [s])) ->
+     (forall v, In v pyr -> v <> s -> ~ In v dbr) ->
      (forall n, n <> s -> zmem n dbr = zmem n db) ->
      ((b0 = 1 /\ closing_order dbr = 1 /\ zmem s db = true) \/
       (b0 = 1 /\ closing_order dbr = 2 /\ zmem s db = false /\ List.length (al_get rings s) = 2%nat) \/
@@ -1342,11 +1659,11 @@ Proof.
            (mkK (if all_nbrs : bool then rev (map (fun nx => [((nx, s, b0, Some 0) : kitem)]) (n0 :: more))
                  else [[((n0, s, b0, Some 0) : kitem)]]) [] [] bs true) []
      end = Ok (ys, r, c) -> forallb (form_sound rings db pyr) ys = true).
-  { intros dbr s b0 alln SK HB HDB HM R. destruct (al_get rings s) as [|n0 more] eqn:AG; [discriminate R|].
+  { intros dbr s b0 alln SK HB HDJ HDB HM R. destruct (al_get rings s) as [|n0 more] eqn:AG; [discriminate R|].
     assert (ADJ : forall nx, In nx (n0 :: more) -> adj rings nx s) by (intros nx Hn; unfold adj; rewrite AG; exact Hn).
     assert (S0 : s <> 0) by (apply (f_key_pos _ _ _ WF); exact SK).
     assert (GOOD : Forall (Good rings dbr pyr s b0 (ksize rings)) ys).
-    { eapply (kloop_good rings dbr pyr s b0 Hsym Hirr Hnd Hd3 Hd2 PY2 S0 (ksize rings) (skeleton_bonds rings) LEN Hskel); [exact R | | constructor].
+    { eapply (kloop_good rings dbr pyr s b0 Hsym Hirr HDJ Hnd Hd3 Hd2 S0 (ksize rings) (skeleton_bonds rings) LEN Hskel); [exact R | | constructor].
       split; [|constructor]. cbn [k_path k_stack]. destruct alln.
       - rewrite <- map_rev. apply init_stk; auto. intros nx Hn. apply ADJ. apply in_rev. exact Hn.
       - apply (init_stk rings dbr pyr s b0 Hirr HB [n0]). intros nx [Hn|[]]. subst. apply ADJ. left. reflexivity. }
@@ -1359,30 +1676,39 @@ Proof.
       assert (IK : In (k, l) (filter (fun nl => (Z.of_nat (List.length (snd nl)) =? 2) && (negb true || negb (zmem (fst nl) pyr))) rings)) by (rewrite FL; left; reflexivity).
       apply filter_In in IK. destruct IK as [IK1 IK2]. simpl in IK2. apply andb_true_iff in IK2. destruct IK2 as [L2 _]. apply Z.eqb_eq in L2.
       assert (KK : In k (keys rings)) by (apply in_map_iff; exists (k, l); auto).
-      apply (RUN [] k 1 true KK (or_introl eq_refl) (fun n _ => eq_refl)); [|exact E].
+      apply (RUN [] k 1 true KK (or_introl eq_refl) (fun v _ _ H => H) (fun n _ => eq_refl)); [|exact E].
       right. left. repeat split; auto.
       rewrite (al_get_unique _ _ _ (f_nodup_keys _ _ _ WF) IK1). simpl in L2. lia.
     + unfold find_start in F2. destruct (filter _ rings) as [|[k l] fr] eqn:FL; [discriminate|]. injection F2 as F2. subst z. simpl.
       assert (IK : In (k, l) (filter (fun nl => (Z.of_nat (List.length (snd nl)) =? 2) && (negb false || negb (zmem (fst nl) pyr))) rings)) by (rewrite FL; left; reflexivity).
       apply filter_In in IK. destruct IK as [IK1 IK2].
       assert (KK : In k (keys rings)) by (apply in_map_iff; exists (k, l); auto).
-      apply (RUN [] k 1 true KK (or_introl eq_refl) (fun n _ => eq_refl)); [|exact E].
+      apply (RUN [] k 1 true KK (or_introl eq_refl) (fun v _ _ H => H) (fun n _ => eq_refl)); [|exact E].
       right. left. repeat split; auto.
       simpl in IK2. apply andb_true_iff in IK2. destruct IK2 as [L2 _]. apply Z.eqb_eq in L2.
       rewrite (al_get_unique _ _ _ (f_nodup_keys _ _ _ WF) IK1). lia.
     + destruct rings as [|[k l] rr] eqn:RG; [discriminate E|]. rewrite <- RG in *.
       assert (KK : In k (keys rings)) by (rewrite RG; left; reflexivity).
-      apply (RUN [k] k 2 true KK (or_intror (conj eq_refl eq_refl))); [| |exact E].
+      apply (RUN [k] k 2 true KK (or_intror (conj eq_refl eq_refl))); [| | |exact E].
+      * intros v Hv Nv [I|[]]. congruence.
       * intros n Hn. simpl. destruct (n =? k) eqn:K; [apply Z.eqb_eq in K; contradiction | reflexivity].
       * right. right. repeat split; auto.
   - assert (SD : In db_start (d0 :: db')) by (apply DS; discriminate).
-    apply (RUN (d0 :: db') db_start 1 false (DBK _ SD) (or_introl eq_refl) (fun n _ => eq_refl)); [|exact E].
+    apply (RUN (d0 :: db') db_start 1 false (DBK _ SD) (or_introl eq_refl) (fun v Hv _ => DISJ v Hv) (fun n _ => eq_refl)); [|exact E].
     left. repeat split; auto. apply zmem_true. exact SD.
 Qed.
 
+(* the hypotheses are satisfiable and the conclusion is not vacuous: benzene, the pyrrole skeleton, pyridine-type atoms, naphthalene
+   with a pyridine-type atom, and the component on which the search was unsound before fix ad376fe (pyrrole-type atoms with
+   three skeleton neighbours) *)
+Definition former_witness : adjl := [(4, [2; 3; 7]); (1, [7; 3]); (5, [2; 6]); (6, [2; 3; 5]); (7, [4; 1]); (2, [4; 5; 6]); (3, [6; 4; 1])].
+Definition naphthalene_adj : adjl :=
+  [(1, [2; 10]); (2, [1; 3]); (3, [2; 4]); (4, [3; 5]); (5, [4; 6; 10]); (6, [5; 7]); (7, [6; 8]); (8, [7; 9]); (9, [8; 10]); (10, [9; 1; 5])].
 Theorem kekule_component_sound_examples :
   rings_wf2 (ring_adj 6) [] [] = true /\ rings_wf2 (ring_adj 5) [1] [] = true /\ rings_wf2 (ring_adj 6) [] [1; 4] = true /\
-  rings_wf2 [(1, [2; 10]); (2, [1; 3]); (3, [2; 4]); (4, [3; 5]); (5, [4; 6; 10]); (6, [5; 7]); (7, [6; 8]); (8, [7; 9]); (9, [8; 10]); (10, [9; 1; 5])] [] [2] = true /\
-  match kekule_component [(1, [2; 10]); (2, [1; 3]); (3, [2; 4]); (4, [3; 5]); (5, [4; 6; 10]); (6, [5; 7]); (7, [6; 8]); (8, [7; 9]); (9, [8; 10]); (10, [9; 1; 5])] [] 0 [2] 0 10 1000 with
-  | Ok (ys, _, _) => (3 <=? List.length ys)%nat | Err _ => false end = true.
+  rings_wf2 naphthalene_adj [] [2] = true /\ rings_wf2 former_witness [6] [1; 3; 5; 7] = true /\
+  match kekule_component naphthalene_adj [] 0 [2] 0 10 1000 with
+  | Ok (ys, _, _) => (3 <=? List.length ys)%nat | Err _ => false end = true /\
+  match kekule_component former_witness [6] 6 [1; 3; 5; 7] 7 10 1000 with
+  | Ok (ys, _, _) => (1 <=? List.length ys)%nat && forallb (form_sound former_witness [6] [1; 3; 5; 7]) ys | Err _ => false end = true.
 Proof. vm_compute. repeat split; reflexivity. Qed.
